@@ -185,7 +185,8 @@ static void enc_run(int Fs, int ch, int app, const vop *ops, int nops, vrng *r)
       case 'E': {
          long n = (o->fsz > 0 && o->fsz <= 200000) ? (long)o->fsz * ch : 0;   /* exact-size block: the encoder may read frame_size samples */
          opus_int16 *pcm = (opus_int16 *)malloc(n > 0 ? n * sizeof(opus_int16) : 2);
-         if (n > 0) gen_pcm(r, pcm, o->fsz, ch, o->sig);
+         int pseed = o->v ? o->v : (int)(vnext(r) % 1000000 + 1);   /* the signal is a function of (sig, pseed): a history replays alone */
+         { vrng pr; pr.s = (uint64_t)pseed * 0x9E3779B97F4A7C15ULL + (uint64_t)o->sig; if (n > 0) gen_pcm(&pr, pcm, o->fsz, ch, o->sig); }
          printf(" E%d:%d", o->fsz, o->bytes); fflush(stdout);
          ret = opus_encode(st, pcm, o->fsz, out, o->bytes > 8000 ? 8000 : o->bytes);
          printf(":%d:", ret < 0 ? ret : ret); enc_obs(stdout, st);
@@ -193,7 +194,7 @@ static void enc_run(int Fs, int ch, int app, const vop *ops, int nops, vrng *r)
             int toc = 0, payload = 0, nfr = 0;
             if (ret > 0) { opus_int16 sz[48]; int k; unsigned char t; nfr = opus_packet_parse(out, ret, &t, NULL, sz, NULL);
                            toc = out[0]; for (k = 0; k < nfr; k++) payload += sz[k]; }
-            printf(":%d:%d:%d", toc, payload, nfr);
+            printf(":%d:%d:%d:%d:%d", toc, payload, nfr, o->sig, pseed);
          }
          fflush(stdout);
          free(pcm);
@@ -331,7 +332,8 @@ static void ms_run(msobj *m, const msop *ops, int nops, vrng *r)
       case 'E': {
          long n = (o->fsz > 0 && o->fsz <= 200000) ? (long)o->fsz * m->nch : 0; int k;
          opus_int16 *pcm = (opus_int16 *)malloc(n > 0 ? n * sizeof(opus_int16) : 2);
-         if (n > 0) gen_pcm(r, pcm, o->fsz, m->nch, o->sig);
+         int pseed = o->v ? o->v : (int)(vnext(r) % 1000000 + 1);
+         { vrng pr; pr.s = (uint64_t)pseed * 0x9E3779B97F4A7C15ULL + (uint64_t)o->sig; if (n > 0) gen_pcm(&pr, pcm, o->fsz, m->nch, o->sig); }
          printf(" E%d:%d", o->fsz, o->bytes); fflush(stdout);
          if (m->kind == 2) ret = opus_projection_encode((OpusProjectionEncoder *)m->obj, pcm, o->fsz, out, o->bytes);
          else ret = opus_multistream_encode((OpusMSEncoder *)m->obj, pcm, o->fsz, out, o->bytes);
@@ -340,6 +342,7 @@ static void ms_run(msobj *m, const msop *ops, int nops, vrng *r)
             if (k) printf(";");
             enc_obs(stdout, e);
             printf(",%d,%d,%d,%d", e->user_bitrate_bps, e->user_bandwidth, e->user_forced_mode, e->energy_masking != NULL); }
+         printf(":%d:%d", o->sig, pseed);
          fflush(stdout); free(pcm);
          oprintf("enc/"); ms_snap(m); oprintf(" ");
          continue; }
@@ -683,6 +686,21 @@ static void run_reapp(uint64_t seed, long cases)
    }
 }
 
+/* Deterministic corpus case (defect D3): the rate-based stereo->mono decision on a multi-frame SILK packet; the encode
+   call used to overwrite the user's force_channels (OPUS_AUTO) with 1 for good. */
+static void run_forceauto(void)
+{
+   static vop ops[32]; int n = 0, i; vrng r; r.s = 4242;
+   OP_S(4024, 3001); OP_S(4002, 40000);
+   for (i = 0; i < 4; i++) { ops[n].kind = 'E'; ops[n].fsz = 1280; ops[n].bytes = 1276; ops[n].sig = 3; n++; }
+   OP_S(4002, 10000);
+   for (i = 0; i < 3; i++) { ops[n].kind = 'E'; ops[n].fsz = 1280; ops[n].bytes = 1276; ops[n].sig = 3; n++; }
+   OP_S(4002, 64000);
+   for (i = 0; i < 3; i++) { ops[n].kind = 'E'; ops[n].fsz = 1280; ops[n].bytes = 1276; ops[n].sig = 3; n++; }
+   ops[n].kind = 'g'; ops[n].id = 4023; n++;
+   enc_run(16000, 2, 2048, ops, n, &r);
+}
+
 /* ------------------------------------------------------------------ create / allocation failure */
 static void create_one(const char *kind, int Fs, int nch, int a, int b, const unsigned char *map, int app, int failk)
 {
@@ -929,12 +947,58 @@ static void run_honourdtx(void)
    }
 }
 
+/* ------------------------------------------------------------------ replay of history lines (stdin), used to shrink witnesses */
+static int hexmap(const char *h, unsigned char *out)
+{ int n = 0; if (*h == 'x') h++; while (h[0] && h[1]) { unsigned v; sscanf(h, "%2x", &v); out[n++] = (unsigned char)v; h += 2; } return n; }
+static void run_lines(void)
+{
+   static char line[1 << 20]; static vop ops[4096]; static msop mops[4096];
+   while (fgets(line, sizeof line, stdin)) {
+      char *tok[4200]; int nt = 0, i, n = 0, first, ms; char *p = strtok(line, " \r\n"); vrng r; r.s = 1;
+      while (p && nt < 4200) { tok[nt++] = p; p = strtok(NULL, " \r\n"); }
+      i = (nt && !strcmp(tok[0], "I")) ? 1 : 0;
+      if (nt - i < 3 || strcmp(tok[i], "ctl")) continue;
+      ms = !strcmp(tok[i + 1], "msenc") || !strcmp(tok[i + 1], "mssur") || !strcmp(tok[i + 1], "projenc");
+      if (!ms && strcmp(tok[i + 1], "enc")) continue;
+      first = i + (!strcmp(tok[i + 1], "enc") ? 5 : !strcmp(tok[i + 1], "msenc") ? 8 : !strcmp(tok[i + 1], "mssur") ? 6 : 5);
+      if (first > nt) continue;
+      for (int k = first; k < nt && n < 4000; k++) {
+         char *t = tok[k]; char kind = t[0]; long a = 0, b = 0; char *c = strchr(t, ':');
+         if (k == first && !strcmp(t, "g4029")) continue;          /* every history prints its initial getter itself */
+         a = strtol(t + 1, NULL, 10); if (c) b = strtol(c + 1, NULL, 10);
+         memset(&ops[n], 0, sizeof ops[n]); memset(&mops[n], 0, sizeof mops[n]);
+         ops[n].kind = mops[n].kind = kind;
+         if (kind == 's') { ops[n].id = mops[n].id = (int)a; ops[n].v = mops[n].v = (int)b; }
+         else if (kind == 'g' || kind == 'n' || kind == 'u') ops[n].id = mops[n].id = (int)a;
+         else if (kind == 'm' || kind == 'c') ops[n].v = (int)a;
+         else if (kind == 'x') { mops[n].v = (int)a; mops[n].p = (int)b; }
+         else if (kind == 'q' || kind == 'a') mops[n].p = (int)a;
+         else if (kind == 't') { mops[n].p = (int)a; mops[n].v = (int)b; }
+         else if (kind == 'E') {
+            /* E<fsz>:<bytes>:…:<sig>:<pseed> (the last two fields); a bare E<fsz>:<bytes> uses signal 3, seed 1 */
+            char *f[64]; int nf = 0; char *q = t + 1; f[nf++] = q; while ((q = strchr(q, ':')) && nf < 64) { *q++ = 0; f[nf++] = q; }
+            ops[n].fsz = mops[n].fsz = atoi(f[0]); ops[n].bytes = mops[n].bytes = nf > 1 ? atoi(f[1]) : 1276;
+            ops[n].sig = mops[n].sig = nf > 3 ? atoi(f[nf - 2]) : 3; ops[n].v = mops[n].v = nf > 3 ? atoi(f[nf - 1]) : 1;
+         } else if (kind != 'r') continue;
+         n++;
+      }
+      if (!ms) enc_run(atoi(tok[i + 2]), atoi(tok[i + 3]), atoi(tok[i + 4]), ops, n, &r);
+      else if (!strcmp(tok[i + 1], "msenc")) { unsigned char map[256]; hexmap(tok[i + 6], map);
+         msenc_run(atoi(tok[i + 2]), atoi(tok[i + 3]), atoi(tok[i + 4]), atoi(tok[i + 5]), map, atoi(tok[i + 7]), mops, n, &r); }
+      else if (!strcmp(tok[i + 1], "mssur")) mssur_run(atoi(tok[i + 2]), atoi(tok[i + 3]), atoi(tok[i + 4]), atoi(tok[i + 5]), mops, n, &r);
+      else proj_run(atoi(tok[i + 2]), atoi(tok[i + 3]), atoi(tok[i + 4]), mops, n, &r);
+      fflush(stdout);
+   }
+}
+
 int main(int argc, char **argv)
 {
    vinstall_traps();
    make_packets();
    if (argc >= 3 && !strcmp(argv[1], "grid")) run_grid(atoi(argv[2]));
    else if (argc >= 4 && !strcmp(argv[1], "rand")) run_rand(strtoull(argv[2], 0, 10), atol(argv[3]));
+   else if (argc >= 2 && !strcmp(argv[1], "forceauto")) run_forceauto();
+   else if (argc >= 2 && !strcmp(argv[1], "stdin")) run_lines();
    else if (argc >= 4 && !strcmp(argv[1], "reapp")) run_reapp(strtoull(argv[2], 0, 10), atol(argv[3]));
    else if (argc >= 4 && !strcmp(argv[1], "chain")) run_chain(strtoull(argv[2], 0, 10), atol(argv[3]));
    else if (argc >= 3 && !strcmp(argv[1], "create")) run_create(atoi(argv[2]));
